@@ -203,6 +203,10 @@ def deliver(stream, seg, app_kind, server_kwargs, full_log=False, extra_tapes=No
             signal.setitimer(signal.ITIMER_VIRTUAL, 0)
             signal.signal(signal.SIGVTALRM, old_handler if old_handler is not None
                           else signal.SIG_DFL)
+    if any(r[3] == "_WallWatchdog" for r in o.records):
+        # the interrupt was swallowed by Tornado's blanket exception logging: what the run
+        # did afterwards depends on when the timer fired, so it is not an observation
+        o.status = "wall_watchdog"
     _digest_recs(o)
     return o
 
